@@ -269,6 +269,11 @@ func (e *Engine) callByContract(fr *frame, ins ssa.Instruction, fn *ssa.Function
 	e.usedContracts[c.id()]++
 	site := e.posOf(ins.Pos())
 	for _, cl := range c.byKind("requires") {
+		if e.pure || isAssumedLabel(cl.Label) {
+			// ghost code generates no obligations; requires[A<n>] clauses are global assumptions
+			// (DESIGN.md section 6) that are assumed by the callee and not checked at call sites
+			continue
+		}
 		pf := e.w.Preds[c.Pkg+"."+cl.Pred]
 		goal := e.evalPred(pf, args, heap, nil)
 		e.oblige(&Obligation{
@@ -282,7 +287,14 @@ func (e *Engine) callByContract(fr *frame, ins ssa.Instruction, fn *ssa.Function
 	}
 	// havoc what the callee may assign (frame), then assume its ensures
 	e.havocAssigns(c, fn, args, heap)
-	res := e.havocResult(resT, "res_"+fn.Name())
+	var res Val
+	if c.Options["pure"] {
+		// a pure function: its results are a function of its arguments and of the heap it
+		// is called in (identified by a fingerprint of the current heap terms)
+		res = e.pureResult(fn, args, resT, heap)
+	} else {
+		res = e.havocResult(resT, "res_"+fn.Name())
+	}
 	var resList []Val
 	if tv, ok := res.(TupleVal); ok {
 		resList = tv
@@ -292,8 +304,20 @@ func (e *Engine) callByContract(fr *frame, ins ssa.Instruction, fn *ssa.Function
 	pre := heap // callee post-state == caller heap after havoc
 	for _, cl := range c.byKind("ensures") {
 		pf := e.w.Preds[c.Pkg+"."+cl.Pred]
-		t := e.evalPred(pf, append(append([]Val{}, args...), resList...), pre, nil)
-		e.sc.assume(implies(reach, t))
+		all := append(append([]Val{}, args...), resList...)
+		t := e.evalPred(pf, all, pre, nil)
+		// a clause with recorded findings is only known to hold outside their regions
+		var regions []string
+		full := c.Func + ".ensures." + cl.Label
+		for _, f := range e.w.Findings.Findings {
+			if !(f.Obligation == full || strings.HasPrefix(full, f.Obligation+".")) || !strings.HasSuffix(c.Pkg, f.Pkg) {
+				continue
+			}
+			if kp := e.w.Preds[c.Pkg+"."+f.Pred]; kp != nil {
+				regions = append(regions, e.evalPred(kp, all, pre, nil))
+			}
+		}
+		e.sc.assume(implies(and(reach, not(or(regions...))), t))
 	}
 	return res, reach
 }
@@ -778,4 +802,36 @@ func (e *Engine) copyOp(fr *frame, cc *ssa.CallCommon, args []Val, heap Heap) Va
 		e.dirty[c.key] = true
 	})
 	return Sc{n, SI64}
+}
+
+// pureResult returns deterministic results for a call of a pure function: the
+// same function on the same argument terms in the same heap yields the same symbols.
+func (e *Engine) pureResult(fn *ssa.Function, args []Val, resT types.Type, heap Heap) Val {
+	// only components in which pre-existing objects were written can change what a pure
+	// function of pre-existing arguments observes
+	dh := Heap{}
+	for k, v := range heap {
+		if e.dirty[k] {
+			dh[k] = v
+		}
+	}
+	key := fmt.Sprintf("pure|%p|%v|%s", fn, args, heapFingerprint(dh))
+	if r, ok := e.pureMemo[key]; ok {
+		return r
+	}
+	r := e.havocResult(resT, "pure_"+fn.Name())
+	e.pureMemo[key] = r
+	return r
+}
+
+func isAssumedLabel(l string) bool {
+	if len(l) < 2 || l[0] != 'A' {
+		return false
+	}
+	for _, c := range l[1:] {
+		if c < '0' || c > '9' {
+			return false
+		}
+	}
+	return true
 }
